@@ -338,6 +338,13 @@ class Engine(ExprMixin, CallMixin, StmtMixin):
         except RecursionError:
             del self.obls[n0:]
             self.unsupported[c.key] = 'recursion limit in the executor'
+        except (KeyError, AttributeError, IndexError, TypeError, ValueError, z3.Z3Exception) as e:
+            # the executor met code it does not model and failed inside: the function is out of reach, the run goes on
+            import traceback
+            where = traceback.extract_tb(e.__traceback__)[-1]
+            del self.obls[n0:]
+            self.unsupported[c.key] = 'executor error %s: %s (%s:%d)' % (type(e).__name__, str(e)[:80],
+                                                                          where.filename.split('/')[-1], where.lineno)
         finally:
             self.cur = None
             self.cur_fn = None
